@@ -165,7 +165,7 @@ func run(t *rapid.T) {
 func msgLiteral(marker string) []byte { return machMsg(marker, "remote") }
 
 func TestC06Sequences(t *testing.T) {
-	ev.Checks(110, 500)
+	ev.Checks(100, 500)
 	rapid.Check(t, run)
 }
 
